@@ -74,49 +74,49 @@ variable (n b i j : Nat) (q : HashParts) (hn : 1 ≤ n) (hn2 : n ≤ 4294967296)
 include hn hn2 hb hi hj
 set_option linter.unusedSimpArgs false
 
-set_option maxHeartbeats 1000000 in
+set_option maxHeartbeats 400000 in
 theorem lab_S : nbAt n b ((i : Int) + (-1)) ((j : Int) + (-1)) = some q →
     InQ n b i j q S ∧ ¬ InQ n b i j q E ∧ ¬ InQ n b i j q N ∧ ¬ InQ n b i j q W := by
   lab_tac n b ((i : Int) + (-1)) ((j : Int) + (-1)) hb
     (fun b => nbZ n b _ _ _ _ = some q → InQ n b i j q S ∧ ¬ InQ n b i j q E ∧ ¬ InQ n b i j q N ∧ ¬ InQ n b i j q W)
 
-set_option maxHeartbeats 1000000 in
+set_option maxHeartbeats 400000 in
 theorem lab_SE : nbAt n b ((i : Int) + (0)) ((j : Int) + (-1)) = some q →
     InQ n b i j q S ∧ InQ n b i j q E ∧ ¬ InQ n b i j q N ∧ ¬ InQ n b i j q W := by
   lab_tac n b ((i : Int) + (0)) ((j : Int) + (-1)) hb
     (fun b => nbZ n b _ _ _ _ = some q → InQ n b i j q S ∧ InQ n b i j q E ∧ ¬ InQ n b i j q N ∧ ¬ InQ n b i j q W)
 
-set_option maxHeartbeats 1000000 in
+set_option maxHeartbeats 400000 in
 theorem lab_E : nbAt n b ((i : Int) + (1)) ((j : Int) + (-1)) = some q →
     ¬ InQ n b i j q S ∧ InQ n b i j q E ∧ ¬ InQ n b i j q N ∧ ¬ InQ n b i j q W := by
   lab_tac n b ((i : Int) + (1)) ((j : Int) + (-1)) hb
     (fun b => nbZ n b _ _ _ _ = some q → ¬ InQ n b i j q S ∧ InQ n b i j q E ∧ ¬ InQ n b i j q N ∧ ¬ InQ n b i j q W)
 
-set_option maxHeartbeats 1000000 in
+set_option maxHeartbeats 400000 in
 theorem lab_SW : nbAt n b ((i : Int) + (-1)) ((j : Int) + (0)) = some q →
     InQ n b i j q S ∧ ¬ InQ n b i j q E ∧ ¬ InQ n b i j q N ∧ InQ n b i j q W := by
   lab_tac n b ((i : Int) + (-1)) ((j : Int) + (0)) hb
     (fun b => nbZ n b _ _ _ _ = some q → InQ n b i j q S ∧ ¬ InQ n b i j q E ∧ ¬ InQ n b i j q N ∧ InQ n b i j q W)
 
-set_option maxHeartbeats 1000000 in
+set_option maxHeartbeats 400000 in
 theorem lab_NE : nbAt n b ((i : Int) + (1)) ((j : Int) + (0)) = some q →
     ¬ InQ n b i j q S ∧ InQ n b i j q E ∧ InQ n b i j q N ∧ ¬ InQ n b i j q W := by
   lab_tac n b ((i : Int) + (1)) ((j : Int) + (0)) hb
     (fun b => nbZ n b _ _ _ _ = some q → ¬ InQ n b i j q S ∧ InQ n b i j q E ∧ InQ n b i j q N ∧ ¬ InQ n b i j q W)
 
-set_option maxHeartbeats 1000000 in
+set_option maxHeartbeats 400000 in
 theorem lab_W : nbAt n b ((i : Int) + (-1)) ((j : Int) + (1)) = some q →
     ¬ InQ n b i j q S ∧ ¬ InQ n b i j q E ∧ ¬ InQ n b i j q N ∧ InQ n b i j q W := by
   lab_tac n b ((i : Int) + (-1)) ((j : Int) + (1)) hb
     (fun b => nbZ n b _ _ _ _ = some q → ¬ InQ n b i j q S ∧ ¬ InQ n b i j q E ∧ ¬ InQ n b i j q N ∧ InQ n b i j q W)
 
-set_option maxHeartbeats 1000000 in
+set_option maxHeartbeats 400000 in
 theorem lab_NW : nbAt n b ((i : Int) + (0)) ((j : Int) + (1)) = some q →
     ¬ InQ n b i j q S ∧ ¬ InQ n b i j q E ∧ InQ n b i j q N ∧ InQ n b i j q W := by
   lab_tac n b ((i : Int) + (0)) ((j : Int) + (1)) hb
     (fun b => nbZ n b _ _ _ _ = some q → ¬ InQ n b i j q S ∧ ¬ InQ n b i j q E ∧ InQ n b i j q N ∧ InQ n b i j q W)
 
-set_option maxHeartbeats 1000000 in
+set_option maxHeartbeats 400000 in
 theorem lab_N : nbAt n b ((i : Int) + (1)) ((j : Int) + (1)) = some q →
     ¬ InQ n b i j q S ∧ ¬ InQ n b i j q E ∧ InQ n b i j q N ∧ ¬ InQ n b i j q W := by
   lab_tac n b ((i : Int) + (1)) ((j : Int) + (1)) hb
@@ -172,6 +172,26 @@ theorem filter_edgeOf (dir : MW) : cardinals.filter (fun v => decide (v ∈ edge
 
 theorem edgeOf_injective {d1 d2 : MW} (h : edgeOf d1 = edgeOf d2) : d1 = d2 := by
   cases d1 <;> cases d2 <;> first | rfl | exact absurd h (by decide)
+
+/-- inside one closed base cell the gluing is the identity -/
+theorem glue_self (n : Int) (b : Nat) (a c a' c' : Int) (hb : b < 12) :
+    Glue n b b a c a' c' ↔ a = a' ∧ c = c' := by
+  refine b12 (P := fun b => Glue n b b a c a' c' ↔ a = a' ∧ c = c') b hb ?_ ?_ ?_ ?_ ?_ ?_ ?_ ?_ ?_ ?_ ?_ ?_ <;>
+  simp [Glue]
+
+/-- the four vertices of a cell are four different points of the sphere (so "`p` and `q` share exactly the vertices
+    `shared n p q`" counts points of the sphere).  Holds for every `n ≥ 1`. -/
+theorem vkey_injective (n : Nat) (p : HashParts) (v w : MW) (hn : 1 ≤ n) (hp : Valid n p) (hv : v ∈ cardinals)
+    (hw : w ∈ cardinals) (e : vkey n p v = vkey n p w) : v = w := by
+  rw [vkey_eq n p v hn hp hv, vkey_eq n p w hn hp hw] at e
+  have h1 := dA_range v; have h2 := dC_range v; have h3 := dA_range w; have h4 := dC_range w
+  obtain ⟨hb, hi, hj⟩ := hp
+  have hG := (glue n _ _ _ _ _ _ (by omega) hb hb (by omega) (by omega) (by omega) (by omega) (by omega) (by omega)
+      (by omega) (by omega)).1 e
+  rw [glue_self n _ _ _ _ _ hb] at hG
+  simp only [cardinals, List.mem_cons, List.not_mem_nil, or_false] at hv hw
+  rcases hv with rfl | rfl | rfl | rfl <;> rcases hw with rfl | rfl | rfl | rfl <;>
+  first | rfl | (simp only [dA, dC] at hG; omega)
 
 /-- **C04, `neighbour_labelled`**: the cell returned for direction `dir` shares with `p` exactly the vertices of the
     side `dir` of `p` (two vertices, `dir` ordinal), exactly the corner `dir` of `p` (one vertex, `dir` cardinal); for
